@@ -49,6 +49,25 @@ def find_entries(entries, form, pos, normalizer=True, lemmatize=None, all_forms=
     return out
 
 
+def find_senses(entries, form, pos, normalizer=True, lemmatize=None, all_forms=True):
+    """senses(form, pos): the two passes are judged on the *senses* found (a matching word
+    without senses finds nothing, so the normalized pass still runs).  Returns (lexicon, sense id)."""
+    props = lemmatize(form, pos) if lemmatize else {}
+    if not props:
+        props = {pos: {form}}
+
+    def one_pass(transform):
+        res = []
+        for p, fs in props.items():
+            for e in match_entries(entries, [transform(f) for f in fs], p, normalizer, all_forms):
+                res += [(e['_lex'], s['id']) for s in e.get('senses', [])]
+        return res
+    res = one_pass(lambda f: f)
+    if not res and normalizer:
+        res = one_pass(norm)
+    return set(res)
+
+
 def find_synsets(entries, synset_pos, form, pos, normalizer=True, lemmatize=None, all_forms=True):
     """synsets(form, pos): the part-of-speech filter applies to the synset; `synset_pos` maps a
     (lexicon, synset id) pair to its part of speech.  Returns a set of (lexicon, synset id)."""
